@@ -2,6 +2,7 @@ package v2
 
 import (
 	"bytes"
+	"math"
 	"sync"
 
 	"github.com/hydraide/hydraide/app/core/compressor"
@@ -38,14 +39,16 @@ func (wb *WriteBuffer) Add(entry Entry) bool {
 	wb.entries = append(wb.entries, entry)
 	wb.currentSize += entry.Size()
 
-	return wb.currentSize >= wb.maxSize
+	// The block header stores the entry count in 16 bits, so a block must be
+	// flushed before it holds more entries than that, whatever its byte size.
+	return wb.currentSize >= wb.maxSize || len(wb.entries) >= math.MaxUint16
 }
 
 // ShouldFlush returns true if the buffer has reached its maximum size
 func (wb *WriteBuffer) ShouldFlush() bool {
 	wb.mu.Lock()
 	defer wb.mu.Unlock()
-	return wb.currentSize >= wb.maxSize
+	return wb.currentSize >= wb.maxSize || len(wb.entries) >= math.MaxUint16
 }
 
 // IsEmpty returns true if the buffer has no entries
